@@ -216,7 +216,8 @@ Definition allocatable_on (n : node) (t : task) (pool : res) : bool :=
   end.
 
 Definition is_task_allocatable (n : node) (t : task) : bool :=
-  if t_besteffort t then true else allocatable_on n t (n_idle n).
+  (* a best-effort pod still needs a pod slot that is really idle *)
+  if t_besteffort t then pods (t_req t) <=? pods (n_idle n) else allocatable_on n t (n_idle n).
 
 Definition is_task_allocatable_on_releasing_or_idle (n : node) (t : task) : bool :=
   allocatable_on n t (radd (n_idle n) (n_rel n)).
